@@ -91,7 +91,8 @@ func genEvmWorld(t *rapid.T, cfg worldCfg) chain.World {
 		w.BaseFee, w.MinGasPrice, w.MaxGas = "0", "0", -1
 	} else {
 		w.BaseFee = strconv.FormatInt(rapid.SampledFrom([]int64{0, 7, gwei, 50 * gwei}).Draw(t, "basefee"), 10)
-		w.MinGasPrice = rapid.SampledFrom([]string{"0", "0", "3.5", "1000000000"}).Draw(t, "mingas")
+		// incl. fractional minimum prices just below a base fee the chain decays onto within a block or two
+		w.MinGasPrice = rapid.SampledFrom([]string{"0", "0", "3.5", "1000000000", "999999999.5", "900000000.25"}).Draw(t, "mingas")
 		if rapid.IntRange(0, 3).Draw(t, "maxgask") == 0 {
 			w.MaxGas = -1
 		}
